@@ -124,6 +124,21 @@ Definition set_attrs (v : rval) (ats : list (string * string)) : rval :=
   | _ => v
   end.
 
+(* remove every non-field attribute, at every depth *)
+Fixpoint strip (v : rval) : rval :=
+  match v with
+  | RNode c fs _ =>
+      RNode c
+        ((fix go (l : list (string * bool * option rval)) : list (string * bool * option rval) :=
+            match l with
+            | [] => []
+            | (k, d, Some x) :: xs => (k, d, Some (strip x)) :: go xs
+            | (k, d, None) :: xs => (k, d, None) :: go xs
+            end) fs) []
+  | RList l => RList (map strip l)
+  | RAtom a => RAtom a
+  end.
+
 Fixpoint gsize (v : gval) : nat :=
   match v with
   | GNode _ fs => S ((fix go (l : list (string * gval)) : nat :=
